@@ -86,7 +86,7 @@ SettledNow == /\ Running = {} /\ \A n \in alive : wire[n] = <<>> /\ node[n].tok 
 Submit(i) ==
     /\ Calm /\ i \notin sent /\ Msgs[i].src \in alive
     /\ LET m == Msgs[i]   n == m.src
-           a == [dp |-> m.dp, pf |-> m.pf, ps |-> m.ps, prio |-> m.prio, sa |-> m.sa, data |-> m.data, tl |-> m.tl, ff |-> m.ff]
+           a == [dp |-> m.dp, pf |-> m.pf, ps |-> m.ps, prio |-> m.prio, sa |-> m.sa, data |-> m.data, tl |-> m.tl, ff |-> m.ff, t |-> now]
            r == SendPgn(node[n], NodeCfg[n], a, now)
        IN /\ node' = [node EXCEPT ![n] = r.ns]
           /\ ret' = Append(ret, [i |-> i, ok |-> r.ret, busy |-> (FreeIdx(IF m.ps = GLOBAL \/ IsPdu2(m.pf) THEN node[n].poolBam ELSE node[n].poolCm) = 0),
